@@ -702,7 +702,12 @@ func GenNotations(t *rapid.T, m *Method, src, dst StructDecl, uf *UserFuncs, pf 
 			// a converter that takes a pointer to the source's type (also a pointer to a pointer)
 			ptrArg := !strings.HasSuffix(s.Path, "()") && rapid.IntRange(0, 5).Draw(t, "cptr") == 0
 			uf.ToSetup = rapid.IntRange(0, 2).Draw(t, "convInSetup") == 0
-			name := uf.Converter(s.Home, d.Home, retErr, ptrArg)
+			argT := s.Home
+			if twin, ok := map[string]string{"[]int": "LIDs", "func(int) int": "LFunc", "LIDs": "[]int"}[s.Home]; ok && rapid.IntRange(0, 2).Draw(t, "cptrTwin") == 0 {
+				// a pointer to a type the field is assignable to but not identical with: &field does not fit
+				argT, ptrArg = twin, true
+			}
+			name := uf.Converter(argT, d.Home, retErr, ptrArg)
 			if s.Path == d.Path && rapid.Bool().Draw(t, "omitDst") {
 				m.Notes = append(m.Notes, Notation{"conv", []string{name, s.Path}})
 			} else {
